@@ -179,7 +179,7 @@ Definition cleanup_ok (c : pcase) : bool :=
 (* C01: the proved validator (Proofs/SimValidator.v) on the implementation's allocation: liveness is
    recomputed by the (proved exact) model over the reads/writes the property text demands, and no
    definition may land on the storage of another value that is live after it *)
-From Avo Require Import Model.Sem Proofs.SimLink Proofs.SimValidator.
+From Avo Require Import Model.Sem Proofs.SimLink Proofs.SimValidator Proofs.AllocCorrect Proofs.AllocSim.
 Definition prog_regs_of (o : observed) : option prog_regs_t :=
   (fix go (is : list instr) (ss : list (list (option nat))) : option prog_regs_t :=
      match is, ss with
@@ -190,3 +190,8 @@ Definition prog_regs_of (o : observed) : option prog_regs_t :=
      end) (instructions (o_after_zext o)) (o_succs o).
 Definition sim_ok (o : observed) : bool :=
   if reached_alloc o then match prog_regs_of o with Some pr => allocation_valid (o_alloc o) pr | None => true end else true.
+
+(* hypothesis of model_allocation_preserves_semantics, evaluated on the implementation's instructions
+   (after zero-extension): a virtual register an instruction reads or writes is one of its operands *)
+Definition discipline_ok (o : observed) : bool :=
+  if reached_alloc o then virt_in_operands_b (instructions (o_after_zext o)) else true.
